@@ -164,14 +164,14 @@ def mask_ack(ack):
     return '\n'.join(out)
 
 
-def observe(text, params=None, loop_id=None):
+def observe(text, params=None, loop_id=None, map_path=None):
     """everything C18 compares, as one JSON-able dict (timestamps and generated control numbers masked)"""
     import pyx12.error_handler
     import pyx12.params
     import pyx12.x12context
     import pyx12.x12n_document
     from . import pipeline
-    r = pipeline.validate(text, want_997=True, want_html=True, want_xml=True)
+    r = pipeline.validate(text, want_997=True, want_html=True, want_xml=True, param=params, map_path=map_path)
     html = re.sub(r'Analysis Date: [0-9/: ]+', 'Analysis Date: #', r.html or '')
     out = {'verdict': r.verdict, 'exc': list(r.exc[:3]) if r.exc else None,
            'errors': [list(map(str, e)) for e in r.errors], 'ack': mask_ack(r.ack), 'html': html, 'xml': r.xml}
@@ -248,8 +248,17 @@ def run(tier):
         maps = set(d[0] for d in docs)
         res.count()
         res.distinct(tuple((d[0], hash(d[1]), d[2]) for d in docs), nontrivial=(len(maps) > 1 or len(set(docs)) < len(docs)))
+        psnap = copy.deepcopy(params.params)
+        mapdir = os.path.join(common.REPO, 'pyx12', 'map')
         for i, (mf, text, lid) in enumerate(docs):
-            got = observe(text, params, lid)
+            # every third document is validated with the map directory named explicitly (same files as the packaged ones)
+            got = observe(text, params, lid, map_path=(mapdir if (h + i) % 3 == 0 else None))
+            if params.params != psnap:
+                res.violation('pred:params-object-mutated', 'the caller\'s params object was changed by a run: %r -> %r' % (
+                    {k: v for k, v in psnap.items() if params.params.get(k) != v}, {k: v for k, v in params.params.items() if psnap.get(k) != v}),
+                    {'history': [{'map': d[0], 'loop_id': d[2], 'document': d[1]} for d in docs[:i + 1]],
+                     'call': 'x12n_document(params, ..., map_path=<explicit map directory>) then inspect params.params'})
+                params.params = copy.deepcopy(psnap)
             want = fresh(text, lid)
             ndocs += 1
             res.count()
